@@ -16,7 +16,11 @@ Tails == { <<>>,
            <<32, 35, 32, 76, 101, 103, 101, 110, 100, 58, 10, 97, 61, 123, 98, 125>>,                              \* mid-line header
            <<10, 35, 76, 101, 103, 101, 110, 100, 58, 10, 97, 61, 123, 120, 125>> }                                \* "#Legend:" is not the marker
 Grid2Text(g) == FoldLeft(LAMBDA acc, i : acc \o (IF i = 1 THEN <<>> ELSE <<10>>) \o g[i], <<>>, [i \in 1..Len(g) |-> i])
-Init == (\E g \in [1..H -> [1..W -> Alphabet]] : \E tail \in Tails : txt = Grid2Text(g) \o tail) /\ done = FALSE
+\* the marker's text earlier in the drawing, where no legend parses: in a sentence, inside a quoted string
+Heads == { <<>>,
+           <<97, 32, 35, 32, 76, 101, 103, 101, 110, 100, 58, 32, 98, 10>>,                                        \* a # Legend: b\n
+           <<34, 35, 32, 76, 101, 103, 101, 110, 100, 58, 34, 32, 45, 10>> }                                       \* "# Legend:" -\n
+Init == (\E g \in [1..H -> [1..W -> Alphabet]] : \E tail \in Tails : \E head \in Heads : txt = head \o Grid2Text(g) \o tail) /\ done = FALSE
 Next == ~done /\ done' = TRUE /\ UNCHANGED txt
 Doc == FullDoc(txt)
 AsEvent == [rows |-> TextLines(SplitLegend(txt).drawing),
@@ -26,5 +30,12 @@ ModelC12x == C12_ExQuoted(AsEvent)
 ModelC12 == ~HasQuoted(CellRows(AsEvent.rows)) => C12_OK(AsEvent)
 \* a header followed by a line end is a legend, whatever follows: the drawing stops there
 LegendCut == Doc.found => \A i \in 1..Len(AsEvent.rows) : ~IsLegendRow(AsEvent.rows[i])
+\* property level (C16): a line that is the header - the marker at the start of the line, nothing but blanks after it - ends the
+\* drawing, whatever the text above it contains
+AllRows == TextLines(txt)
+IsStrictHeaderRow(row) == Len(row) >= 9 /\ SubSeq(row, 1, 9) = LegendHeader /\ \A j \in 10..Len(row) : row[j] \in {32, 9}
+FirstHeaderRow == LET idx == { r \in 1..Len(AllRows) : IsStrictHeaderRow(AllRows[r]) } IN IF idx = {} THEN 0 ELSE SetMin(idx)
+HeaderLineHonoured == FirstHeaderRow > 0 => Doc.found /\ Len(AsEvent.rows) <= FirstHeaderRow - 1 + 1 /\
+                          (Len(AsEvent.rows) = FirstHeaderRow => AsEvent.rows[FirstHeaderRow] = <<>>)
 Emit == done => PrintT(<<"REPLAY", ToJson([text |-> txt, out |-> Doc.out, tags |-> Doc.tags, w |-> Doc.w, h |-> Doc.h, rules |-> Doc.rules])>>)
 =============================================================================
